@@ -240,6 +240,10 @@ class FunctionVC(Executor):
     def apply_contract(self, key, contract, recv, args, kwargs, s: St):
         """Modular call: check requires, havoc modifies, assume ensures, fork declared raises."""
         bound = self.bind_params(key, contract, recv, args, kwargs)
+        for pn, pty in contract.get("params", {}).items():
+            v = bound.get(pn)
+            if isinstance(v, Val) and strip_opt(v.ty)[0] == "any" and pty not in (ANY, BOOL, INT):
+                bound[pn] = Val(v.t, pty)  # the callee's declared parameter type (type correctness of the call is assumed)
         bound.update(self.contract_imports(contract))
         name = key.split(":")[1]
         s.trace.append(("call", name, dict(bound)))
@@ -533,7 +537,7 @@ class FunctionVC(Executor):
                     g = self.with_old(self.env0, self.heap0, lambda: self.eval_clause(neg, St(list(s.pc), dict(self.env0), self.heap0, [], list(s.fresh))))
                     self.oblige(f"raises[{cls}].complete.path{n_ret}", "raise", s, g, {"clause": f"not ({cond})  [normal return only when the raise condition is false]"})
                 for k, tp in enumerate(c.get("trace", [])):
-                    self.oblige(f"trace{k}.path{n_ret}", "post", s, z3.BoolVal(bool(tp["check"](s.trace, "return"))), {"clause": tp["name"], "trace": summarize_trace(s.trace)})
+                    self.oblige(f"trace{k}.path{n_ret}", "post", s, self.trace_goal(tp, s, "return", None), {"clause": tp["name"], "trace": summarize_trace(s.trace)})
             elif out.kind == "raise":
                 n_raise += 1
                 r: Raised = out.val
@@ -555,7 +559,7 @@ class FunctionVC(Executor):
                 for k, en in enumerate(c.get("ensures_on_raise", [])):
                     self.oblige(f"ensures_on_raise{k}.path{n_raise}", "post", s, self.eval_clause(en, s), {"clause": en})
                 for k, tp in enumerate(c.get("trace", [])):
-                    self.oblige(f"trace{k}.rpath{n_raise}", "post", s, z3.BoolVal(bool(tp["check"](s.trace, "raise:" + r.cls, r))), {"clause": tp["name"], "trace": summarize_trace(s.trace)})
+                    self.oblige(f"trace{k}.rpath{n_raise}", "post", s, self.trace_goal(tp, s, "raise:" + r.cls, r), {"clause": tp["name"], "trace": summarize_trace(s.trace)})
             else:
                 raise Unsupported(f"{out.kind} escapes function body")
         self.n_paths = (n_ret, n_raise)
@@ -564,6 +568,12 @@ class FunctionVC(Executor):
         if mods is not None or c.get("frame", False):
             self.frame_obligations(mods or [])
         return self.obligations
+
+    def trace_goal(self, tp, s, outcome, raised):
+        res = tp["check"](s.trace, outcome, raised, s.env, self, s)
+        if z3.is_expr(res):
+            return res
+        return z3.BoolVal(bool(res))
 
     def frame_obligations(self, mods):
         s0 = St([], dict(self.env0), self.heap0, [], [])
